@@ -188,6 +188,12 @@ def explore(
             fb = read_file_checkpoint(ref.file)
             if ref.payloads and (fb != ref.payloads[-1][2] or fb != ref.last_checkpoint_bytes):
                 V.append(violation("c12.final_file", "after the run the file's checkpoint is not the final payload", where))
+            elif ref.last_checkpoint_bytes is not None and fb != ref.last_checkpoint_bytes:
+                # independent of the storage seam (which only sees a write when the file's content changes): what the sampler
+                # acknowledged last is what the file must hold, byte for byte
+                same_len = fb is not None and len(fb) == len(ref.last_checkpoint_bytes)
+                V.append(violation("c12.final_file", "after the run the file's checkpoint is not the payload the sampler acknowledged last"
+                                   + (" (same length, older content)" if same_len else ""), {**where, "same_length": bool(same_len)}))
             sizes = [len(b) for _, _, b in ref.payloads]
             if any(b < a for a, b in zip(sizes, sizes[1:])):
                 probe("payload_shrank")
